@@ -6,6 +6,8 @@ import (
 	"encoding/json"
 	"flag"
 	"fmt"
+	"io"
+	"log"
 	"os"
 	"os/exec"
 	"path/filepath"
@@ -28,6 +30,7 @@ type opts struct {
 var families = map[string]func(o opts) error{}
 
 func main() {
+	log.SetOutput(io.Discard) // go-plugin logs through the std logger in places
 	if len(os.Args) < 2 {
 		fmt.Fprintln(os.Stderr, "usage: hx <family> [flags]")
 		os.Exit(2)
